@@ -86,3 +86,127 @@ Proof.
   intro H. unfold new_ipvote in H. destruct (mn <? 2) eqn:C; [discriminate|]. apply N.ltb_ge in C.
   inversion H; subst. split; [reflexivity|exact C].
 Qed.
+
+(* ================================================================ the main loop around the PONG handling
+   (Model/IpVote.v [lstep]: PONGs, incoming sessions and the auto-NAT timer arm of Service::start).
+   The address of one family changes only through a PONG that reports an address of THAT family
+   (to the clear-majority winner, with the sequence bump and the event, as above) or, to nothing,
+   when that family's own auto-NAT window runs out; a window is only ever opened by a majority
+   change of its own family.  In particular a history without votes of a family never changes
+   that family's address. *)
+
+Definition wait_of (c : conn) (fam : bool) : option (N * N) := if fam then c_wait6 c else c_wait4 c.
+
+Lemma timer_failure_spec n fam :
+  udp fam (enr (n_svc (timer_failure n fam))) = None /\
+  udp (negb fam) (enr (n_svc (timer_failure n fam))) = udp (negb fam) (enr (n_svc n)) /\
+  events (n_svc (timer_failure n fam)) = events (n_svc n) /\
+  seq (enr (n_svc (timer_failure n fam))) = seq (enr (n_svc n)) + 1 /\
+  wait_of (n_conn (timer_failure n fam)) fam = None /\
+  wait_of (n_conn (timer_failure n fam)) (negb fam) = wait_of (n_conn n) (negb fam).
+Proof. destruct fam; cbn; repeat split; reflexivity. Qed.
+
+Theorem loop_address_changes_per_family :
+  forall n now e fam,
+  let n' := lstep n now e in
+  udp fam (enr (n_svc n')) <> udp fam (enr (n_svc n)) ->
+  (exists voter a0 co tick iv iv1 a,
+     e = LPong voter (fam, a0) co tick /\ should_count (n_conn n) fam = true /\
+     ip_votes (n_svc n) = Some iv /\ (iv1 = iv \/ iv1 = fst (majority iv tick)) /\
+     majority_of tick (minimum iv) (put (new_vote iv voter (fam, a0) tick) (tbl fam iv1)) = Some a /\
+     udp fam (enr (n_svc n')) = Some a /\
+     udp (negb fam) (enr (n_svc n')) = udp (negb fam) (enr (n_svc n)) /\
+     seq (enr (n_svc n')) = seq (enr (n_svc n)) + 1 /\
+     events (n_svc n') = events (n_svc n) ++ [(fam, a)])
+  \/
+  (exists t, e = LTime t /\ due (wait_of (n_conn n) fam) t = true /\
+     udp fam (enr (n_svc n')) = None /\ events (n_svc n') = events (n_svc n)).
+Proof.
+  intros n now e fam n' Hne. destruct e as [voter sock co tick | v6 | t].
+  - left. unfold n' in *. cbn [lstep n_svc] in *.
+    set (p := {| p_node := voter; p_sock := sock; p_count_ok := should_count (n_conn n) (fst sock);
+                 p_conn_out := co; p_enr_ok := true |}) in *.
+    destruct (handle_pong_change (n_svc n) p tick tick fam Hne)
+      as (iv & iv1 & a & IV & CO & F & RM & W & U & UO & SQ & EV).
+    cbn [p p_count_ok p_sock p_node] in *. destruct sock as [f a0]. cbn [fst] in F. subst f.
+    exists voter, a0, co, tick, iv, iv1, a. repeat split; assumption.
+  - exfalso. apply Hne. reflexivity.
+  - right. exists t. split; [reflexivity|]. unfold n' in *. clear n'. cbn [lstep] in *.
+    destruct fam; cbn [wait_of].
+    + (* IPv6 *)
+      destruct (due (c_wait4 (n_conn n)) t) eqn:D4.
+      * pose proof (timer_failure_spec n false) as (_ & O & E & _ & _ & W). cbn [negb wait_of] in O, W.
+        rewrite W in *.
+        destruct (due (c_wait6 (n_conn n)) t) eqn:D6.
+        -- pose proof (timer_failure_spec (timer_failure n false) true) as (U & _ & E2 & _).
+           split; [reflexivity|]. split; [exact U|]. rewrite E2. exact E.
+        -- exfalso. apply Hne. exact O.
+      * destruct (due (c_wait6 (n_conn n)) t) eqn:D6.
+        -- pose proof (timer_failure_spec n true) as (U & _ & E2 & _).
+           split; [reflexivity|]. split; [exact U|exact E2].
+        -- exfalso. apply Hne. reflexivity.
+    + (* IPv4 *)
+      destruct (due (c_wait4 (n_conn n)) t) eqn:D4.
+      * split; [reflexivity|].
+        pose proof (timer_failure_spec n false) as (U & _ & E & _).
+        destruct (due (c_wait6 (n_conn (timer_failure n false))) t).
+        -- pose proof (timer_failure_spec (timer_failure n false) true) as (_ & O2 & E2 & _).
+           cbn [negb] in O2. split; [rewrite O2; exact U | rewrite E2; exact E].
+        -- split; [exact U|exact E].
+      * destruct (due (c_wait6 (n_conn n)) t) eqn:D6.
+        -- exfalso. apply Hne. pose proof (timer_failure_spec n true) as (_ & O & _). exact O.
+        -- exfalso. apply Hne. reflexivity.
+Qed.
+
+Definition lrun (n : node) (evs : list (N * lev)) : node :=
+  fold_left (fun n x => lstep n (fst x) (snd x)) evs n.
+
+Definition reports (fam : bool) (e : lev) : bool :=
+  match e with LPong _ sock _ _ => Bool.eqb (fst sock) fam | _ => false end.
+
+(* one step that is not a PONG of family [fam]: no window of [fam] is opened, and with no window
+   of [fam] open the address of [fam] stays *)
+Lemma lstep_without_vote n now e fam :
+  reports fam e = false -> wait_of (n_conn n) fam = None ->
+  wait_of (n_conn (lstep n now e)) fam = None /\
+  udp fam (enr (n_svc (lstep n now e))) = udp fam (enr (n_svc n)).
+Proof.
+  intros R W. split.
+  - destruct e as [voter sock co tick | v6 | t]; cbn [lstep n_conn].
+    + cbn [reports] in R. destruct (seq (enr (n_svc n)) <? seq (enr (handle_pong (n_svc n) _ tick tick))); [|exact W].
+      unfold enr_socket_update. destruct (c_window (n_conn n)); [|exact W].
+      destruct sock as [f a]; cbn [fst] in *. destruct f, fam; cbn in R; try discriminate; exact W.
+    + unfold received_incoming. destruct v6, fam; cbn [wait_of n_conn c_wait4 c_wait6] in *; try exact W; rewrite W; reflexivity.
+    + destruct fam; cbn [wait_of] in *.
+      * destruct (due (c_wait4 (n_conn n)) t).
+        -- pose proof (timer_failure_spec n false) as (_ & _ & _ & _ & _ & K). cbn [negb wait_of] in K.
+           rewrite K, W. cbn [due]. exact (eq_trans K W).
+        -- rewrite W. cbn [due]. exact W.
+      * rewrite W. cbn [due].
+        destruct (due (c_wait6 (n_conn n)) t); [|exact W].
+        pose proof (timer_failure_spec n true) as (_ & _ & _ & _ & _ & K). cbn [negb wait_of] in K.
+        exact (eq_trans K W).
+  - destruct (option_eq_dec_N (udp fam (enr (n_svc (lstep n now e)))) (udp fam (enr (n_svc n)))) as [E|NE]; [exact E|].
+    exfalso. destruct (loop_address_changes_per_family n now e fam NE)
+      as [(voter & a0 & co & tick & _ & _ & _ & E & _) | (t & _ & D & _)].
+    + subst e. cbn [reports fst] in R. rewrite Bool.eqb_reflx in R. discriminate.
+    + rewrite W in D. discriminate.
+Qed.
+
+(* "an IPv6-only vote history never changes the IPv4 address and vice versa": from a node without
+   open windows, whatever PONGs of the other family, incoming sessions and timer expiries happen *)
+Theorem family_without_votes_never_changes :
+  forall window s evs fam,
+  forallb (fun x => negb (reports fam (snd x))) evs = true ->
+  udp fam (enr (n_svc (lrun {| n_svc := s; n_conn := new_conn window |} evs))) = udp fam (enr s).
+Proof.
+  intros window s evs fam H.
+  assert (G : forall n, wait_of (n_conn n) fam = None ->
+              udp fam (enr (n_svc (lrun n evs))) = udp fam (enr (n_svc n))).
+  { induction evs as [|x evs IH]; intros n W; [reflexivity|].
+    cbn [forallb] in H. apply andb_true_iff in H. destruct H as [H1 H2]. apply negb_true_iff in H1.
+    destruct (lstep_without_vote n (fst x) (snd x) fam H1 W) as [W' U'].
+    cbn [lrun fold_left]. fold (lrun (lstep n (fst x) (snd x)) evs).
+    rewrite (IH H2 _ W'). exact U'. }
+  apply (G {| n_svc := s; n_conn := new_conn window |}). destruct fam; reflexivity.
+Qed.
